@@ -341,6 +341,60 @@ pub fn apply_burst(p: &mut [u8], start_bit: usize, pattern: u8) -> bool {
     any
 }
 
+/// Corruptions that weaker integrity checks would miss: they preserve the byte
+/// sum, the XOR of all bytes, the position-weighted (Fletcher) sum, or the
+/// multiset of bytes, while the CRC-8 PEC (left as it was) no longer matches.
+/// Enumerated completely for: every position i, distance d in 1..=4;
+/// (+k,-k) for k in {1,2,0x10,0x80}; the same XOR mask on both bytes for masks
+/// {0x01,0x80,0xFF,0x55}; (+k,-2k,+k) on (i, i+d, i+2d) for k in 1..=3, d in 1..=3;
+/// transposition of bytes i and i+d.  Results that are valid packets again are dropped.
+pub fn weak_corruptions(p: &[u8]) -> Vec<Vec<u8>> {
+    let n = p.len();
+    let mut out = vec![];
+    let mut push = |q: Vec<u8>| {
+        if q != p && crc8(&q) != 0 {
+            out.push(q);
+        }
+    };
+    for i in 0..n {
+        for d in 1..=4usize {
+            let j = i + d;
+            if j >= n {
+                break;
+            }
+            for k in [1u8, 2, 0x10, 0x80] {
+                let mut q = p.to_vec();
+                q[i] = q[i].wrapping_add(k);
+                q[j] = q[j].wrapping_sub(k);
+                push(q);
+            }
+            for m in [0x01u8, 0x80, 0xFF, 0x55] {
+                let mut q = p.to_vec();
+                q[i] ^= m;
+                q[j] ^= m;
+                push(q);
+            }
+            let mut q = p.to_vec();
+            q.swap(i, j);
+            push(q);
+        }
+        for d in 1..=3usize {
+            let (j, l) = (i + d, i + 2 * d);
+            if l >= n {
+                break;
+            }
+            for k in 1..=3u8 {
+                let mut q = p.to_vec();
+                q[i] = q[i].wrapping_add(k);
+                q[j] = q[j].wrapping_sub(2 * k);
+                q[l] = q[l].wrapping_add(k);
+                push(q);
+            }
+        }
+    }
+    out
+}
+
 pub fn hexs(b: &[u8]) -> String {
     hex(b)
 }
